@@ -46,7 +46,9 @@ type Case struct {
 func genWeird(t *rapid.T, label string, allowEmpty bool) string {
 	switch rapid.IntRange(0, 5).Draw(t, label+"K") {
 	case 0:
-		l := []string{`a"b`, `back\slash`, "<script>", "x y", "é", "日本", "user name", "{}", `","isHWKey":true,"x":"`, "null", "a,b", "tab\there"}
+		l := []string{`a"b`, `back\slash`, "<script>", "x y", "é", "日本", "user name", "{}", `","isHWKey":true,"x":"`, "null", "a,b", "tab\there",
+			// texts that look like JSON escapes themselves (a literal backslash followed by an escape letter)
+			`\u003c`, `x\u0026y`, `\u003e\u003c`, `\n`, `\"`, `\\`, `\u00e9`, `\u2028`, "&amp;", "%3C", "\u2028\u2029", "a&b<c>d"}
 		if allowEmpty {
 			l = append(l, "")
 		}
